@@ -9,7 +9,8 @@ PURE_STD_PREFIXES = (
     "core::ptr::const_ptr::<impl *const T>::", "core::ptr::mut_ptr::<impl *mut T>::cast",
     "core::ptr::non_null::NonNull::<T>::", "core::convert::num::", "core::num::<impl ",
     "core::cmp::impls::", "core::cmp::PartialEq::eq", "core::cmp::PartialEq::ne",
-    "core::option::Option::<T>::", "core::result::Result::<T, E>::", "core::convert::Into::into",
+    "core::option::Option::<T>::", "core::option::Option::<&T>::", "core::result::Result::<T, E>::", "core::convert::Into::into",
+    "core::ops::range::RangeInclusive::<Idx>::contains", "core::ops::range::Range::<Idx>::contains",
     "core::convert::From::from", "<T as core::convert::Into<U>>::into", "<T as core::convert::TryInto<U>>::try_into",
     "<[T] as core::convert::AsRef<[T]>>::as_ref", "core::clone::impls::", "core::ops::deref::Deref::deref",
     "core::convert::<impl core::convert::From<T> for T>::from",
